@@ -992,3 +992,149 @@ Proof.
   intros Hle Hb. unfold qstep. destruct (step h o) as [h1 o1]. cbn [fst] in Hb.
   rewrite (drain_stable f h1 Hb 500 Hle). destruct (drain f h1) as [h2 o2]. exact Hb.
 Qed.
+
+(* ------------------------------------------------------------------ every history *)
+Lemma is_msg_op_inv o : is_msg_op o = true -> exists ctl c to tag, o = op_of ctl c to tag.
+Proof.
+  destruct o; try discriminate; intros _.
+  - exists false, c, to, tag. reflexivity.
+  - exists true, c, to, tag. reflexivity.
+Qed.
+
+(* the bus queue is empty whenever a message op starts *)
+Fixpoint quiet (h : hub) (ops : list op) : Prop :=
+  match ops with
+  | [] => True
+  | o :: r => (is_msg_op o = true -> h_bus h = []) /\ quiet (fst (qstep h o)) r
+  end.
+Fixpoint quietb (h : hub) (ops : list op) : bool :=
+  match ops with
+  | [] => true
+  | o :: r => (negb (is_msg_op o) || match h_bus h with [] => true | _ => false end) && quietb (fst (qstep h o)) r
+  end.
+Lemma quietb_quiet ops : forall h, quietb h ops = true -> quiet h ops.
+Proof.
+  induction ops as [|o r IH]; intros h H; cbn [quiet quietb] in *; [exact I|].
+  apply andb_prop in H as [H1 H2]. split; [|now apply IH].
+  intros Hm. rewrite Hm in H1. cbn in H1. destruct (h_bus h); [reflexivity|discriminate].
+Qed.
+
+Theorem step_C05_model h o : WF h -> RI h -> (is_msg_op o = true -> h_bus h = []) ->
+  step_C05 (digest_of h) o (obs_of_outs (snd (qstep h o))) = true.
+Proof.
+  intros W I Hb. destruct (is_msg_op o) eqn:Hm.
+  - destruct (is_msg_op_inv o Hm) as (ctl & c & to & tag & ->). apply msg_step_C05; auto.
+  - destruct o; try discriminate; reflexivity.
+Qed.
+
+Definition model_case_g (limits : list N) (gated : bool) (ops : list op) : hcase :=
+  mkcase 0 1 limits gated (model_trace 1 (init limits gated) ops).
+
+Lemma check_from cfg ops : pc_quiescent cfg = true -> forall h ps i,
+  WF h -> RI h -> quiet h ops -> (forall o ob, step_C05 (ps_prev ps) o ob = step_C05 (digest_of h) o ob) ->
+  check_trace 5 cfg i ps (model_trace 1 h ops) = None.
+Proof.
+  intros Hq. induction ops as [|o r IH]; intros h ps i W I Q Hpd; [reflexivity|].
+  cbn [model_trace]. change (sem_step 1 h o) with (qstep h o).
+  destruct (qstep h o) as [h' outs] eqn:Hs. destruct Q as [Qo Qr]. rewrite Hs in Qr. cbn [fst] in Qr.
+  cbn [check_trace]. unfold check_step. rewrite Hq. cbn [negb orb].
+  assert (HC : step_C05 (ps_prev ps) o (obs_of_outs outs) = true).
+  { rewrite Hpd. replace outs with (snd (qstep h o)) by (now rewrite Hs). now apply step_C05_model. }
+  rewrite HC. apply IH; auto.
+  - replace h' with (fst (qstep h o)) by (now rewrite Hs). now apply wf_qstep.
+  - replace h' with (fst (qstep h o)) by (now rewrite Hs). now apply ri_qstep.
+Qed.
+
+(* P_hub 5 (the property as the harness evaluates it) on the model's own trace finds nothing *)
+Theorem C05_every_history limits gated ops :
+  quiet (init limits gated) ops -> P_hub 5 (model_case_g limits gated ops) = None.
+Proof.
+  intros Q. unfold P_hub, model_case_g. cbn [k_limits k_mode k_trace].
+  apply check_from; [reflexivity|apply wf_init|apply ri_init|exact Q|intros o ob; destruct o; reflexivity].
+Qed.
+
+(* the same, op by op: at every message op of a history that starts with an empty bus queue *)
+Theorem C05_every_step limits gated pre ctl c to tag :
+  let h := qrun (init limits gated) pre in
+  let o := op_of ctl c to tag in
+  h_bus h = [] ->
+  step_C05 (digest_of h) o (obs_of_outs (snd (qstep h o))) = true /\
+  erase_h (fst (qstep h o)) = erase_h h /\ h_bus (fst (qstep h o)) = [] /\
+  (forall sid s, conn_sess h c sid s ->
+     snd (qstep h o) = outs_of (ref_copies (digest_of h) (kind_of ctl) (sd_of h (sid, s)) to tag
+                                           (ref_targets (digest_of h) ctl (sd_of h (sid, s)) to)) /\
+     (forall m, In (ToConn c m) (snd (qstep h o)) ->
+        exists n t v, to = RSession (IdPub n) /\ get_sess h n = Some t /\ s_kind t = KVirtual sid v /\
+                      m = the_msg h (kind_of ctl) sid s to (Some (RcptVirtual v)) tag) /\
+     (forall c' m, In (ToConn c' m) (snd (qstep h o)) ->
+        exists r t, get_sess h r = Some t /\ s_conn t = Some c' /\ s_backend t = s_backend s /\ is_virtual (s_kind t) = false) /\
+     (forall y, pend (fst (qstep h o)) y =
+        match find (fun e => N.eqb (fst e) y) (ref_targets (digest_of h) ctl (sd_of h (sid, s)) to) with
+        | Some e => if disc h y then enqueue (pend h y) (the_msg h (kind_of ctl) sid s to (snd e) tag) else pend h y
+        | None => pend h y
+        end)).
+Proof.
+  intros h o Hb. assert (W : WF h) by apply wf_reachable_q. assert (I : RI h) by apply ri_reachable_q.
+  split; [now apply msg_step_C05|].
+  destruct (msg_tables_unchanged ctl h c to tag W I Hb) as (A & B & _). split; [exact A|]. split; [exact B|].
+  intros sid s Hcs. split; [now apply msg_outputs|]. split; [intros m; now apply (msg_not_to_sender ctl h c to tag sid s m)|].
+  split; [intros c' m; now apply (msg_same_backend ctl h c to tag sid s c' m)|]. intros y. now apply (msg_queues ctl h c to tag sid s y).
+Qed.
+
+(* ------------------------------------------------------------------ witnesses *)
+(* the invariants and the empty bus are satisfiable by a non-trivial reachable state: two backends, a
+   room with three members of which one is in the call, an internal client with a virtual session, a
+   disconnected member; the theorem applies to all the message ops of this history *)
+Definition demo_ops : list op :=
+  [OConnect 1 0; OConnect 2 0; OConnect 3 0; OConnect 4 0; OConnect 5 0;
+   OHello 1 (HV1 0 7 false); OHello 2 (HV1 0 8 false); OHello 3 (HV1 0 8 false); OHello 4 (HInternal 0 0 false false);
+   OHello 5 (HV1 1 7 false);
+   OJoin 1 5 11 (RepOk None 0); OJoin 2 5 12 (RepOk None 0); OJoin 3 5 13 (RepOk None 0); OJoin 4 5 0 (RepOk None 0);
+   OInternal 4 (IAdd 9 5 70 None None);
+   OApi 0 0 5 (AInCall [(IdRS 12, 1, None)]);
+   ODrop 3;
+   OMsg 1 RRoom 100; OMsg 1 RCall 101; OMsg 1 (RUser 8) 102; OMsg 1 (RSession (IdPub 2)) 103;
+   OMsg 1 (RSession (IdPub 5)) 104; OMsg 1 (RSession (IdPub 6)) 105; OCtl 2 RRoom 106; OMsg 4 (RSession (IdPub 6)) 107].
+
+Example demo_quiet : quiet (init [0; 0] false) demo_ops.
+Proof. apply quietb_quiet. vm_compute. reflexivity. Qed.
+Example demo_outputs :
+  map (fun x => fst x) (skipn 17 (model_run 1 (init [0; 0] false) demo_ops)) =
+  [ [ToConn 2 (SMsg 0 2 1 7 None 100); ToConn 4 (SMsg 0 2 1 7 None 100)];
+    [ToConn 2 (SMsg 0 3 1 7 None 101)];
+    [ToConn 2 (SMsg 0 1 1 7 None 102)];
+    [ToConn 2 (SMsg 0 0 1 7 None 103)];
+    [];
+    [ToConn 4 (SMsg 0 0 1 7 (Some (RcptVirtual 9)) 105)];
+    [ToConn 1 (SMsg 1 2 2 8 None 106); ToConn 4 (SMsg 1 2 2 8 None 106)];
+    [ToConn 4 (SMsg 0 0 4 0 (Some (RcptVirtual 9)) 107)] ].
+Proof. vm_compute. reflexivity. Qed.
+Example demo_history : P_hub 5 (model_case_g [0; 0] false demo_ops) = None.
+Proof. apply C05_every_history, demo_quiet. Qed.
+
+(* The one copy that does come back on the sender's connection: an internal client addressing one of
+   its own virtual sessions gets the message on its own connection, the recipient rewritten to the
+   virtual session's id (msg_not_to_sender says this is the only case). *)
+Definition own_virtual_ops : list op :=
+  [OConnect 1 0; OConnect 2 0; OHello 1 (HInternal 0 0 false false); OHello 2 (HV1 0 5 false);
+   OJoin 2 1 1 (RepOk None 0); OInternal 1 (IAdd 7 1 9 None None); OMsg 1 (RSession (IdPub 3)) 42].
+Example message_to_own_virtual_session :
+  snd (qstep (qrun (init [0] false) (removelast own_virtual_ops)) (OMsg 1 (RSession (IdPub 3)) 42)) =
+    [ToConn 1 (SMsg 0 0 1 0 (Some (RcptVirtual 7)) 42)] /\
+  P_hub 5 (model_case_g [0] false own_virtual_ops) = None.
+Proof. split; vm_compute; reflexivity. Qed.
+
+(* The bus queue is NOT empty after every quiescent step: drain has fuel 500, one op can publish more. *)
+Definition flood_ops : list op := [OApi 0 0 5 (ADisinvite (repeat 99 501) [])].
+Lemma bus_empty_after_qstep_refuted : exists limits ops, h_bus (qrun (init limits false) ops) <> [].
+Proof. exists [0], flood_ops. vm_compute. discriminate. Qed.
+
+(* ... and a message op that starts with a publication still queued is not routed as the reference
+   prescribes: the left-over disinvite closes the addressee before the message is delivered *)
+Definition leftover_ops : list op :=
+  [OConnect 1 0; OConnect 2 0; OHello 1 (HV1 0 1 false); OHello 2 (HV1 0 2 false);
+   OJoin 1 5 0 (RepOk None 0); OJoin 2 5 0 (RepOk None 0);
+   OApi 0 0 5 (ADisinvite (repeat 99 500 ++ [2]) []); OMsg 1 (RUser 2) 42].
+Lemma history_needs_empty_bus_refuted :
+  quietb (init [0] false) leftover_ops = false /\ P_hub 5 (model_case_g [0] false leftover_ops) = Some (7, 1).
+Proof. split; vm_compute; reflexivity. Qed.
